@@ -103,15 +103,10 @@ def moveOkB (t : T) (sa da : FsPath) : Bool :=
 def keysRT (env : Env) (t : T) : Bool :=
   t.nodes.all (fun kv => decide (resolve env t (renderP kv.1) = .ok kv.1))
 
-/-- the domain of a listing of `p`: keys round-trip through `abs`; optionally no listed node is a link
-    (`dirs`/`files`/`all_dirs`/`all_files`: finding S7) -/
-def listOkB (env : Env) (t : T) (p : Str) (all noLinks : Bool) : Bool :=
-  keysRT env t &&
-  (match resolve env t p with
-   | .ok a =>
-     (!noLinks || t.nodes.all (fun kv =>
-        !(isProperPrefix a kv.1 && (all || kv.1.length = a.length + 1)) || !isLinkKind kv.2.kind))
-   | _ => true)
+/-- the domain of a listing: keys round-trip through `abs`.  (The former second clause "no listed node is
+    a link" for `dirs`/`files`/`all_dirs`/`all_files`, finding S7, is gone with the repair: the collecting
+    loop skips link entries.) -/
+def listOkB (env : Env) (t : T) : Bool := keysRT env t
 
 /-- the keys the walk from `a` visits: `a` itself and, when recursing into a real directory, everything below -/
 def vis (t : T) (rc : Bool) (a k : FsPath) : Bool := k == a || (rc && isDir t a && isProperPrefix a k)
@@ -154,11 +149,8 @@ def opOk (env : Env) (t : T) : Op → Bool
   -- S16: `chown(2)` follows links
   | .chown p _ _ => chownOkB env t p true
   | .chownB p c => chownOkB env t p c.recursive
-  -- S7: listings of links (S15 was repaired: fcf2bdc)
-  | .paths p => listOkB env t p false false
-  | .dirs p | .files p => listOkB env t p false true
-  | .allPaths p => listOkB env t p true false
-  | .allDirs p | .allFiles p => listOkB env t p true true
+  -- listings: only `keysRT` (S7, listings of links, and S15 are repaired)
+  | .paths _ | .dirs _ | .files _ | .allPaths _ | .allDirs _ | .allFiles _ => listOkB env t
   -- S8, S13, S14: `move_p` of links, onto links, of the directory the process is in
   | .moveP a b => (match resolve env t a, resolve env t b with
       | .ok sa, .ok da => moveOkB t sa da
